@@ -297,6 +297,19 @@ theorem scores_some (n : ℕ) (v : List ℕ → Ds.Outcome) (null : ℚ)
   have hi' : i < n := List.mem_range.mp hi
   simp [List.getD_eq_getElem?_getD, hi']
 
+theorem sum_range_map (n : ℕ) (F : ℕ → ℚ) :
+    ((List.range n).map F).sum = ∑ i ∈ Finset.range n, F i := by
+  induction n with
+  | zero => simp
+  | succ n ih => rw [List.range_succ, List.map_append, List.sum_append, ih, Finset.sum_range_succ]; simp
+
+theorem sum_range_map_dite (n : ℕ) (f : Fin n → ℚ) :
+    ((List.range n).map (fun i => if hi : i < n then f ⟨i, hi⟩ else 0)).sum = ∑ i : Fin n, f i := by
+  rw [sum_range_map, ← Fin.sum_univ_eq_sum_range (fun i => if hi : i < n then f ⟨i, hi⟩ else 0) n]
+  apply Finset.sum_congr rfl
+  intro i _
+  simp
+
 /-- **C03 core**: on a game given on coalitions, the scores are the Shapley value -/
 theorem scores_eq_phi (n : ℕ) (g : Finset (Fin n) → Ds.Outcome) (null : ℚ)
     (h : ∀ S, g S ≠ .other) :
